@@ -105,6 +105,10 @@ class CallGraph:
                         cs.targets = [c.methods[fn.attr]]
                         cs.how = "super"
                         return cs
+                bases = repo.bases(f.cls)
+                if bases and all(not isinstance(b, type(f.cls)) and b[0] == "ext" for b in bases):
+                    cs.external = f"super({bases[0][1]}).{fn.attr}"
+                    return cs
                 # mixin/Cbstr: super target unknown in this class alone: all methods of that name in subclasses' MROs
                 cs.targets = list(self.methods_by_name.get(fn.attr, []))
                 cs.how = "super (by name)"
